@@ -505,6 +505,39 @@ def adversarial_documents(rng, desc, n):
             for lab, parts in (("same-key-object-then-abstract-args", (a2, b2)), ("same-key-abstract-then-object-args", (b2, a2))):
                 out.append((lab, "{ %s%s { __typename %s %s } }" % (q["name"], req_args(q), parts[0], parts[1]), {}))
         break
+    # MergeSafe but not KeyConsistent: the same response key for DIFFERENT fields of mutually exclusive object types, and at
+    # different nesting levels
+    for it in desc["types"]:
+        if it["kind"] != "interface":
+            continue
+        impls = [o for o in desc["types"] if o["kind"] == "object" and it["name"] in o.get("interfaces", [])]
+        qI = [f for f in rf if ty_base(f["type"]) == it["name"]]
+        if len(impls) < 2 or not qI:
+            continue
+
+        def free(t):
+            return [f for f in t["fields"] if not any(a["type"][0] == "nonNull" and a.get("default") is None for a in f.get("args") or [])]
+        o1, o2 = rng.sample(impls, 2)
+        pairs = [(f1, f2) for f1 in free(o1) for f2 in free(o2)
+                 if f1["name"] != f2["name"] and ty_str(f1["type"]) == ty_str(f2["type"])]
+        if not pairs:
+            continue
+        f1, f2 = rng.choice(pairs)
+        fi = rng.choice(qI)
+        s1, s2 = sub(f1), sub(f2)
+        out.append(("merge-safe-exclusive", "{ %s%s { __typename ... on %s { v: %s%s } ... on %s { v: %s%s } } }" % (
+            fi["name"], req_args(fi), o1["name"], f1["name"], s1, o2["name"], f2["name"], s2), {}))
+        out.append(("merge-safe-exclusive-fragments", "{ %s%s { ...MA ...MB } } fragment MA on %s { v: %s%s } fragment MB on %s { v: %s%s }" % (
+            fi["name"], req_args(fi), o1["name"], f1["name"], s1, o2["name"], f2["name"], s2), {}))
+        break
+    if leaf and comp:
+        f = rng.choice(leaf)
+        g = rng.choice(comp)
+        gt = desc_type(desc, ty_base(g["type"]))
+        inner = [h for h in (gt.get("fields") or []) if kind_of(desc, ty_base(h["type"])) in ("scalar", "enum")
+                 and not any(a["type"][0] == "nonNull" and a.get("default") is None for a in h.get("args") or [])] if gt else []
+        body = ("a: %s" % rng.choice(inner)["name"]) if inner else "a: __typename"
+        out.append(("merge-safe-levels", "{ a: %s%s %s%s { %s } }" % (f["name"], req_args(f), g["name"], req_args(g), body), {}))
     # untyped inline fragments: under an ABSTRACT-typed field, a field whose type IMPLEMENTS that abstract type contains an
     # untyped inline fragment; then, one level up (in the abstract type's own selection set), another untyped inline
     # fragment selects implementation-only fields. A type-info stack that leaks the inner type would validate them.
